@@ -123,6 +123,47 @@ def run(ctx, scratch):
                                   expected={k: exp.get(k) for k, _ in bad[:2]}, observed={k: got.get(k) for k, _ in bad[:2]})
                 if rep == 0:
                     ctx.sample(dict(name=name, B=spec, opts=opts))
+        # get_distances(B, transpose=True) is the bipartite graph of B^T (its rows are the columns of B): same result as the
+        # call on the explicitly transposed matrix, whose block-adjacency treatment the loop above establishes
+        if 'get_distances' in desc:
+            d = desc['get_distances']
+            for rep in range(reps):
+                spec, nr, nc, fam = cases.make_matrix(rng, 'bip', nmax, weighted=rng.random() < 0.5)
+                square = rep % 3 == 2
+                if square:
+                    m = min(nr, nc)
+                    spec['coo'] = [e for e in spec['coo'] if e[0] < m and e[1] < m]
+                    spec['shape'] = [m, m]
+                    nr = nc = m
+                    if len(spec['coo']) < 2:
+                        continue
+                optsT = cases.make_opts(rng, d, nc, nr, True, want_side=['row', 'col', 'both'][rep % 3])
+                if square and rep % 2:
+                    optsT['force_bipartite'] = True
+                specT = dict(spec)
+                specT['shape'] = [nc, nr]
+                specT['coo'] = sorted([e[1], e[0]] + list(e[2:]) for e in spec['coo'])
+                opts = dict(optsT)
+                opts['params'] = {'transpose': True}
+                a = impl.call('registry', 'run', dict(name='get_distances', m=spec, opts=opts), timeout=60)
+                b = impl.call('registry', 'run', dict(name='get_distances', m=specT, opts=optsT), timeout=60)
+                ctx.traces += 2
+                ctx.count('get_distances:transpose', ('gdT', spec['shape'], spec['coo'], repr(sorted(optsT.items(), key=str))), True)
+                case = dict(name='get_distances', B=spec, opts=opts, transposed=specT, transposed_opts=optsT,
+                            family='transpose_' + ('square' if square else 'rect'))
+                if any(k in a or k in b for k in ('hang', 'crash')):
+                    continue
+                if ('ok' in a) != ('ok' in b):
+                    ctx.violation('get_distances', 'transpose=True on B and the call on B^T: one raises, the other does not', case=case,
+                                  entry='get_distances', kind='error_mismatch', bipartite=a.get('err', 'ok'), block=b.get('err', 'ok'))
+                    continue
+                if 'ok' not in a:
+                    continue
+                bad = compare(b['ok'], a['ok'], rtol=0, atol=0)
+                if bad:
+                    ctx.violation('get_distances', 'transpose=True on a biadjacency matrix is not the result on its transpose: %s' % bad[0][0],
+                                  case=case, entry='get_distances', kind='not_block_equivalent', mismatches=bad[:4], family=case['family'],
+                                  expected=b['ok'], observed=a['ok'])
     ctx.rule = ('every registered estimator / path / structure function accepting bipartite input (%d) x random biadjacency matrices '
                 '(rectangular; square with force_bipartite) x row-only / column-only / mixed seeds or sources in dict/array/list form; '
                 'compared with the run on the block adjacency with translated seeds; distinct by (entry point, B, arguments)' % len(names))
